@@ -453,6 +453,11 @@ def corruptions(rng, f, lines, owner):
         out.append(("data-4-fields", rep(i, "\t".join(fs + ["0", "0", "0"][:4 - len(fs)] if len(fs) < 4 else fs + ["0"]))))
         out.append(("data-non-numeric", rep(i, "\t".join(["x"] + fs[1:]))))
         out.append(("data-out-of-range", rep(i, "\t".join([str(U64 + 1)] + fs[1:]))))
+        # stray delimiters are extra (empty) fields, never padding
+        out.append(("data-trailing-tab", rep(i, lines[i] + "\t")))
+        out.append(("data-trailing-space", rep(i, lines[i] + " ")))
+        out.append(("data-leading-tab", rep(i, "\t" + lines[i])))
+        out.append(("data-trailing-tabs", rep(i, lines[i] + "\t\t")))
         out.append(("blank-inside", lines[:i] + [""] + lines[i:]))
         out.append(("junk-inside", lines[:i] + ["junk"] + lines[i:]))
         out.append(("header-inside", lines[:i] + [lines[hdr_idx[0]]] + lines[i:]))
@@ -472,6 +477,9 @@ def corruptions(rng, f, lines, owner):
             g = list(fs); g[3] = str(c["tend"] - 1); out.append(("hdr-size<end", rep(i, " ".join(g))))
         if c["qend"] > 0:
             g = list(fs); g[8] = str(c["qend"] - 1); out.append(("hdr-qsize<qend", rep(i, " ".join(g))))
+        out.append(("hdr-trailing-space", rep(i, lines[i] + " ")))
+        out.append(("hdr-trailing-tab", rep(i, lines[i] + "\t")))
+        out.append(("hdr-leading-space", rep(i, " " + lines[i])))
         out.append(("hdr-12-fields", rep(i, " ".join(fs[:-1]))))
         out.append(("hdr-14-fields", rep(i, " ".join(fs + ["9"]))))
         g = list(fs); g[4] = "?"; out.append(("hdr-strand", rep(i, " ".join(g))))
@@ -577,7 +585,7 @@ def gen_C06(rng, tier):
     for _ in range(n):
         c, fam = gen_step_case(rng)
         groups.append(group("step-" + fam, "no_panic",
-                            ["step %s %s" % (xtok(gen.header_line(c).encode()), ",".join(rec_tok(b) for b in c["blocks"]))]))
+                            ["step %s %s" % (xtok(gen.header_line(c).encode("latin-1")), ",".join(rec_tok(b) for b in c["blocks"]))]))
     for _ in range(n // 2):
         groups.append(group("line", "no_panic", ["pline " + xtok(gen_line_text(rng))]))
     for L in (127, 128, 129, 8191, 8192, 8193, 20000):
@@ -1067,7 +1075,8 @@ def o_c17(params, cases, outs):
                 n, x = body.split(":")
                 chunk = data[pos:at]
                 text = bytes.fromhex(x[1:])
-                if int(n) != len(chunk) or chunk.rstrip(b"\n").rstrip(b"\r") != text and not (chunk.endswith(b"\n") and (chunk[:-2] if chunk.endswith(b"\r\n") else chunk[:-1]) == text):
+                want_text = chunk[:-2] if chunk.endswith(b"\r\n") else (chunk[:-1] if chunk.endswith(b"\n") else chunk)
+                if int(n) != len(chunk) or want_text != text:
                     return "raw read returned %r for %r" % (text, chunk)
         else:
             if body.startswith("S("):
